@@ -680,3 +680,22 @@ def charclass_world(prog, ctx, is_s, class_method, all_in_class):
         return None                        # all(not in class) / any(in class): a different statement
 
     return ctx.assume((None, quant)), quant
+
+
+def fn_item_body(prog, fnterm):
+    """body of a function item term ('fn', path, full): a free function, or a trait method given as
+    `<Self as Trait>::method` (e.g. `SwapAmountInRoute::from` of a local `impl From<&SwapRoute>`)"""
+    if fnterm[0] != "fn":
+        return None
+    b = prog.body(fnterm[1])
+    if b is not None:
+        return b
+    full = fnterm[2] if len(fnterm) > 2 and fnterm[2] else ""
+    if full.startswith("<") and " as " in full and ">::" in full:
+        inner, meth = full[1:].rsplit(">::", 1)
+        self_ty, trait = inner.split(" as ", 1)
+        suffix = "<impl %s for %s>::%s" % (trait, self_ty, meth)
+        hits = [k for k in prog.bodies if k.endswith(suffix)]
+        if len(hits) == 1:
+            return prog.bodies[hits[0]]
+    return None
